@@ -33,6 +33,34 @@ pub fn run(cfg: &RunCfg, agg: &Mutex<Agg>) {
         };
         one_case(&mut rng, class, out);
     });
+    // working sets of 64-200 MiB: few very long shards, thousands of long
+    // shards, the whole field with kilobyte shards
+    run_cases(agg, cfg, "huge", if cfg.thorough { 24 } else { 4 }, |cs, out| {
+        let mut rng = Rng::new(cs);
+        let (k, r, size) = *rng.pick(&[
+            (2usize, 2usize, 32usize << 20),
+            (3, 1, (16 << 20) + 64),
+            (1, 3, (20 << 20) + 2),
+            (5, 3, (8 << 20) + 66),
+            (1000, 600, 64 << 10),
+            (600, 1000, (48 << 10) + 2),
+            (2000, 48, 40 << 10),
+            (32768, 32768, 1026),
+            (57000, 8000, 1100),
+            (8000, 57000, 1100),
+        ]);
+        let size = size + 2 * rng.below(40);
+        assert!(gen::envelope(k, r), "harness: huge shape outside the documented envelope");
+        HUGE.with(|h| h.set(Some((k, r, size))));
+        one_case(&mut rng, Class::Large, out);
+        HUGE.with(|h| h.set(None));
+        out.tag("working-set>=64MiB");
+    });
+}
+
+thread_local! {
+    /// configuration override for the `huge` stage
+    static HUGE: std::cell::Cell<Option<(usize, usize, usize)>> = const { std::cell::Cell::new(None) };
 }
 
 /// expected restored list: exactly the originals not given, ascending
@@ -195,9 +223,16 @@ pub fn preused_decoder(
 }
 
 fn one_case(rng: &mut Rng, class: Class, out: &mut CaseOut) {
-    let rate = gen::rate(rng);
-    let (k, r) = gen::config(rng, class, rate);
-    let size = gen::shard_size(rng, k, r);
+    let mut rate = gen::rate(rng);
+    let (mut k, mut r) = gen::config(rng, class, rate);
+    let mut size = gen::shard_size(rng, k, r);
+    let huge = HUGE.with(|h| h.get());
+    if let Some(h) = huge {
+        (k, r, size) = h;
+        if !gen::rate_ok(rate, k, r) {
+            rate = RateKind::Default;
+        }
+    }
     let enc_api = gen::api(rng, rate, k, r);
     let poison = rng.chance(1, 2);
     let _p = Poison::new(poison, rng.next_u64());
@@ -230,7 +265,7 @@ fn one_case(rng: &mut Rng, class: Class, out: &mut CaseOut) {
     out.tag(format!("size:{}", gen::size_class(size)));
     out.tag(format!("enc:{}", enc_api.name()));
 
-    let rounds = if k.max(r) > 4096 { 1 } else { 3 };
+    let rounds = if k.max(r) > 4096 || huge.is_some() { 1 } else { 3 };
     for t in 0..rounds {
         let (orig_idx, rec_idx, shape) = gen::received_set(rng, k, r);
         let dec_api = gen::api(rng, rate, k, r);
@@ -318,7 +353,7 @@ fn one_case(rng: &mut Rng, class: Class, out: &mut CaseOut) {
     }
     out.sample = Some(jobj(&[
         ("config", jstr(&desc)),
-        ("original0", jstr(&hex(&originals[0]))),
-        ("recovery0", jstr(&hex(&recovery[0]))),
+        ("original0", jstr(&hex(&originals[0][..originals[0].len().min(256)]))),
+        ("recovery0", jstr(&hex(&recovery[0][..recovery[0].len().min(256)]))),
     ]));
 }
